@@ -9,7 +9,8 @@ import periodictable
 from periodictable import constants
 from periodictable.formulas import formula, Formula
 
-seed, ncase = int(sys.argv[1]), int(sys.argv[2])
+REPLAY = sys.argv[2] if sys.argv[1] == "--replay" else None
+seed, ncase = (0, 0) if REPLAY is not None else (int(sys.argv[1]), int(sys.argv[2]))
 rng = random.Random(seed)
 PUB = periodictable.elements
 pool = Pool(PUB, rng)
@@ -228,11 +229,11 @@ def assignments(f, text):
     return terms, text
 
 
-def emit(kind, src, dk, nk, sets, op, obs, res, text):
+def emit(kind, src, dk, nk, sets, op, obs, res, text, base=None):
     d, nat, ratio, mass = obs
     cases.append("(mkC %s %s %s [%s] %s %s %s %s %s %s)" % (src, optq_term(dk), optq_term(nk), "; ".join(sets), op,
                                                           enc(d), enc(nat), enc(ratio), enc(mass), res))
-    meta.append(dict(kind=kind, text=text))
+    meta.append(dict(kind=kind, text=text, base=base or text))
     stats["kind"][kind] = stats["kind"].get(kind, 0) + 1
 
 
@@ -453,6 +454,56 @@ def direct_tags():
                 fail("C12:single-atom-default", "%s has density %r, the atom has %r" % (text, getattr(f, "density", f), a.density), text)
 
 
+def replay_text(text):
+    """re-evaluate the property's statements on one recorded input"""
+    stmts = text.split("; ")
+    ns = dict(elements=PUB, formula=formula)
+    if not text.startswith("f = "):
+        f = attempt(lambda: formula(text))
+        print("formula(%r) -> %r" % (text, f), file=sys.stderr)
+        if isinstance(f, Exception):
+            fail("C12:formula-raises", "formula(%r) raises %s" % (text, f), text)
+        return
+    last = stmts[-1]
+    pre = stmts[:-1] if last.startswith(("f.replace(", "f.volume(")) else stmts
+    for st in pre:
+        exec(st, ns)
+    f = ns["f"]
+    base = "; ".join(pre)
+    direct_density(f, base)
+    if last.startswith("f.replace("):
+        src, tgt, p = eval("(" + last[len("f.replace("):-1] + ")", ns)
+        op, res, _ = do_replace(f, base, forced=(src, tgt, p))
+        print("result:", res, file=sys.stderr)
+    elif last.startswith("f.volume("):
+        args, kw = eval("(lambda *a, **k: (a, k))" + last[len("f.volume"):], ns)
+        v = attempt(lambda: f.volume(*args, **dict(kw)))
+        kw = dict(kw)
+        if len(args) == 1 and not kw:
+            pf, args = args[0], ()
+        else:
+            pf = kw.pop("packing_factor", "hcp")
+        if args or kw:
+            names = ["a", "b", "c", "alpha", "beta", "gamma"]
+            full = dict(zip(names, args)); full.update(kw)
+            if full.get("a") is None:
+                want = None
+            else:
+                want = doc_cell_volume(*[full.get(n) for n in names])[1] * 1e-24
+        else:
+            pfv = DOC_PF[pf.lower()][0] if isinstance(pf, str) and pf.lower() in DOC_PF else (None if isinstance(pf, str) else pf)
+            ok = all(a.covalent_radius is not None for a in f.atoms) and pfv is not None
+            want = 4 * math.pi / 3 * sum(a.covalent_radius ** 3 * c for a, c in f.atoms.items()) / pfv * 1e-24 if ok else None
+        print("volume:", v, "documented:", want, file=sys.stderr)
+        if want is not None and (isinstance(v, Exception) or not rel(v, want, 1e-11)):
+            fail("C12:volume", "%s = %r, documented formula gives %r" % (text, v, want), text)
+
+
+if REPLAY is not None:
+    replay_text(REPLAY)
+    json.dump(dict(cases=[], meta=[], direct_fails=fails, stats=stats), sys.stdout)
+    sys.exit(0)
+
 direct_tags()
 
 # the witnesses of the refuted statements and a few documented examples, replayed first
@@ -479,17 +530,17 @@ while len(cases) < ncase:
     if f.density is None:
         stats["unknown_density"] += 1
     obs = read_obs(f)
+    direct_density(f, text)
     if k < 3:
-        direct_density(f, text)
         emit("density", src, dk, nk, sets, "OpNone", obs, "RNone", text)
     elif k < 7:
         op, res, text2 = do_replace(f, text)
-        emit("replace", src, dk, nk, sets, op, obs, res, text2)
+        emit("replace", src, dk, nk, sets, op, obs, res, text2, text)
     elif k < 9:
         op, res, text2 = do_vol_pack(f, text)
-        emit("volume-packing", src, dk, nk, sets, op, obs, res, text2)
+        emit("volume-packing", src, dk, nk, sets, op, obs, res, text2, text)
     else:
         op, res, text2 = do_vol_cell(f, text)
-        emit("volume-cell", src, dk, nk, sets, op, obs, res, text2)
+        emit("volume-cell", src, dk, nk, sets, op, obs, res, text2, text)
 
 json.dump(dict(cases=cases, meta=meta, direct_fails=fails, stats=stats), sys.stdout)
